@@ -4,6 +4,7 @@
 
 mod adv;
 mod arrcheck;
+mod compat;
 mod conv;
 mod ctx;
 mod evalx;
